@@ -19,7 +19,14 @@ pub fn answer(db: &Db, q: &str) -> String {
         let ds: Vec<String> = descs
             .into_iter()
             .map(|d| match d {
-                Description::Constant(p, c) => format!("{:?}=>{}|{}/{}|{}|{:?}|{:?}", p, c.description, c.value.numer(), c.value.denom(), c.unit, c.source, c.tokens),
+                Description::Constant(p, c) => {
+                    // the source as the session resolves it (part of "decodes completely")
+                    let src = c.source.map(|id| match db.get_source(id) {
+                        Some(s) => format!("{}<{}>", s.description, s.url.as_deref().unwrap_or("")),
+                        None => "UNRESOLVED".to_string(),
+                    });
+                    format!("{:?}=>{}|{}/{}|{}|{:?}|{:?}|{:?}", p, c.description, c.value.numer(), c.value.denom(), c.unit, c.source, c.tokens, src)
+                }
             })
             .collect();
         format!("{} ## {}", results.join(" ; "), ds.join(" ; "))
